@@ -146,6 +146,15 @@ def big_cases(ctx, sizes):
         for i in range(1, n):
             P[lab[i]] = lab[par[i]]
         out.append({"P": P, "start": 0, "mode": "both", "api": api, "nones": False})
+    # a comb: a long spine with a side twig at every node (a dendrite with spines) - thousands of furcations nested along one path,
+    # numbered so that twigs and spine alternate
+    m = 12000 if len(sizes) <= 2 else 30000
+    P = [-1] * (2 * m)
+    for k in range(1, m):
+        P[2 * k] = 2 * (k - 1)            # spine
+    for k in range(m):
+        P[2 * k + 1] = 2 * k              # twig on spine node k
+    out.append({"P": P, "start": 0, "mode": "both", "api": sizes[0][1], "nones": False})
     return out
 
 
